@@ -60,6 +60,9 @@ func (p *FunctionBuilder) CreateFunction(m *bmodel.MethodEntry) (*gmodel.Functio
 	dst := m.DstVar()
 	additionalArgs := m.AdditionalArgVars()
 
+	if sig, ok := m.Method.Type().(*types.Signature); ok && sig.Variadic() {
+		return nil, logger.Errorf("%v: a variadic parameter is not supported", p.fset.Position(m.Method.Pos()))
+	}
 	if m.Opts.Reverse && 0 < len(additionalArgs) {
 		return nil, logger.Errorf("%v: reverse cannot be used with additional arguments", p.fset.Position(m.Method.Pos()))
 	}
@@ -97,6 +100,10 @@ func (p *FunctionBuilder) CreateFunction(m *bmodel.MethodEntry) (*gmodel.Functio
 	if m.Opts.Receiver != "" {
 		if srcVar.External {
 			return nil, logger.Errorf("%v: an external package type cannot be a receiver", p.fset.Position(m.Method.Pos()))
+		}
+		if named, ok := util.DerefPtr(src.Type()).(*types.Named); !ok || named.Obj().Pkg() != p.pkg.Types {
+			// Methods can only be declared on a defined type of the package itself.
+			return nil, logger.Errorf("%v: the receiver has to be a type defined in this package", p.fset.Position(m.Method.Pos()))
 		}
 		srcVar.Name = m.Opts.Receiver
 	}
